@@ -59,6 +59,11 @@ func Excuse(c Case, eng, ref Result, d *Diff, o *Outcome) string {
 			return "tie"
 		}
 	}
+	if d.Rule == "value" && zeroSignTie(c, expr) {
+		o.Inconclusive = "min/max over +0 and -0: which of the two equal values is kept depends on the order of the operand's samples"
+		o.Count("inconclusive_zero_sign_tie", 1)
+		return "tie:zero-sign"
+	}
 	if d.Rule == "value" && illConditioned(expr) && CompareLoose(eng, ref, 1e-6) == nil {
 		// e.g. tan(stdvar(x)) near a pole: a last-bit difference of the inexactly computed operand is
 		// amplified beyond the comparison tolerance. Real defects are not this small.
@@ -72,6 +77,43 @@ func Excuse(c Case, eng, ref Result, d *Diff, o *Outcome) string {
 		return "knife-edge"
 	}
 	return ""
+}
+
+// zeroSignTie: some min/max (or topk/bottomk) in the query has, at some step, both +0 and -0 among its
+// operand's values. Both engines keep the first of equal values; which one comes first is the order of
+// the operand's samples, which nothing specifies (a join emits in hash order). The sign only shows
+// through a later division.
+func zeroSignTie(c Case, expr parser.Expr) bool {
+	hit := false
+	parser.Inspect(expr, func(n parser.Node, _ []parser.Node) error {
+		ag, ok := n.(*parser.AggregateExpr)
+		if hit || !ok || (ag.Op != parser.MIN && ag.Op != parser.MAX && ag.Op != parser.TOPK && ag.Op != parser.BOTTOMK) {
+			return nil
+		}
+		arg := RunReference(context.Background(), NewStore(c.Dataset, StoreOpts{}), c.Engine, ag.Expr.String(), c.Window)
+		if arg.Res.Err != nil {
+			return nil
+		}
+		pos, neg := map[int64]bool{}, map[int64]bool{}
+		for _, s := range arg.Res.Series {
+			for _, p := range s.Points {
+				if p.V == 0 {
+					if math.Signbit(p.V) {
+						neg[p.T] = true
+					} else {
+						pos[p.T] = true
+					}
+				}
+			}
+		}
+		for t := range pos {
+			if neg[t] {
+				hit = true
+			}
+		}
+		return nil
+	})
+	return hit
 }
 
 // illConditioned: the query applies a function that can amplify relative error without bound (tan
